@@ -370,7 +370,7 @@ def gen_reductions(rng, cx=False):
 def gen_shape(rng, cx=False):
     R = lambda r, **k: A(rng, shape_of_rank(rng, r, **k), "any", cx)
     # reshape / ravel
-    for order in ("__default__", "C", "F", "A"):
+    for order in ("__default__", "C", "F", "A", "f", "c", "a"):
         kw = {} if order == "__default__" else {"order": order}
         x = A(rng, (2, 3, 4), "any", cx)
         yield case("reshape", [x, (4, 6)], kw)
